@@ -2182,9 +2182,14 @@ def _config_str(
       formatted_statements.append('# Macros:')
       formatted_statements.append('# ' + '=' * (max_line_length - 2))
     for (name, _), config in sorted(macros.items(), key=sort_key):
+      if 'value' not in config:
+        continue  # The macro was used (in a failed call) but never bound.
+      value = config['value']
+      if not _is_literally_representable(value):
+        continue  # As for parameters: omit what can't be parsed back.
       provenance: Optional[config_parser.Location] = _CONFIG_PROVENANCE.get(
           (name, 'gin.macro'), {}).get('value', None)
-      binding = format_binding(name, config['value'], provenance)
+      binding = format_binding(name, value, provenance)
       formatted_statements.append(binding)
     if macros:
       formatted_statements.append('')
